@@ -47,6 +47,7 @@ c.returns(('obj', 'kmip.core.utils.BytearrayStream', {'buffer': 'bytes'}))
 c = contract(S + "_send_response").props('C12')
 c.args(self=SESSION, data='bytes')
 c.inlined()       # three lines: callers execute the body, so the socket model records the send
+c.modifies("self._connection.sent")
 c.trace("sends-once-iff-nonempty",
         lambda ev, outcome, exc: True if len([e for e in ev if e[0] == 'send']) <= 1 else "sent twice")
 
